@@ -71,3 +71,40 @@ func VerifC14DeletedSkipped() {
 	}
 	verifrt.Reach("end")
 }
+
+// VerifC14AlterDuration: altering a policy's duration takes effect: after a successful
+// UpdateRetentionPolicy(duration = d2) the expiry decision for a group is the one for d2, whatever the
+// old duration was - in particular altering to 0 (INF) stops expiry and raising the duration un-expires
+// a group that is still within the new horizon.
+func VerifC14AlterDuration() {
+	data := &Data{PtNumPerNode: 1}
+	data.CreateDataNode("127.0.0.1:8086", "127.0.0.1:8188", "", "")
+	verifrt.Assert(data.CreateDatabase("db", nil, nil, false, 1, nil) == nil, "setup: CreateDatabase failed")
+	d1 := time.Duration(verifrt.Int64("d1"))
+	d2 := time.Duration(verifrt.Int64("d2"))
+	verifrt.Assume(d1 >= 0 && d2 >= 0)
+	rpi := &RetentionPolicyInfo{Name: "rp", ReplicaN: 1, Duration: d1, ShardGroupDuration: time.Hour, IndexGroupDuration: time.Hour}
+	if data.CreateRetentionPolicy("db", rpi, true) != nil {
+		return // d1 not an admissible duration
+	}
+	err := data.UpdateRetentionPolicy("db", "rp", &RetentionPolicyUpdate{Duration: &d2}, false)
+	rp, _ := data.RetentionPolicy("db", "rp")
+	if err != nil {
+		verifrt.Assert(rp.Duration == d1, "a rejected alteration changed the duration")
+		verifrt.Reach("rejected")
+		verifrt.Reach("end")
+		return
+	}
+	verifrt.Assert(rp.Duration == d2, "a successful alteration did not set the new duration")
+	if d2 == 0 && d1 != 0 {
+		verifrt.Reach("to-unlimited")
+	}
+	// the expiry decision follows the new duration (instants kept concrete: the arithmetic itself is VerifC14ExpiredGroups)
+	end := time.Unix(1700000000, 0)
+	rp.ShardGroups = []ShardGroupInfo{{ID: 1, EndTime: end}}
+	now := end.Add(48 * time.Hour)
+	got := len(rp.ExpiredShardGroups(now)) == 1
+	want := d2 != 0 && d2 < 48*time.Hour
+	verifrt.Assert(got == want, "expiry after altering the duration does not follow the new duration")
+	verifrt.Reach("end")
+}
